@@ -575,6 +575,52 @@ where
             put_h!(*h, v);
             format!("h{}={}", h, id)
         }
+        Op::NewP { h, val } => {
+            if !h_free!(*h) {
+                return "skip".into();
+            }
+            let v = VArc::<0>::new(*val);
+            v.entry().drop_panics.store(true, SeqCst);
+            let v = Some(v);
+            let id = ident(&v);
+            put_h!(*h, v);
+            format!("h{}={}", h, id)
+        }
+        Op::RcuPanic { c, at } => {
+            let a = match cont!(*c) {
+                None => return "skip".into(),
+                Some(a) => a,
+            };
+            let before = names(|n| n.hist.get(c).map(|h| h.len()).unwrap_or(0));
+            names(|n| n.last_write.remove(&w));
+            let mut tries = 0;
+            let r = catch_unwind(AssertUnwindSafe(|| {
+                a.rcu(|cur: &T| {
+                    tries += 1;
+                    if tries == *at {
+                        panic!("injected: rcu closure panics on attempt {}", tries);
+                    }
+                    let v = cur.as_ref().map(|x| x.get()).unwrap_or(0);
+                    Some(VArc::<0>::new(v + 1))
+                })
+            }));
+            done!(*c);
+            match r {
+                Ok(old) => {
+                    // fewer attempts than `at`: it simply succeeded
+                    drop(old);
+                    format!("rcu-succeeded tries={}", tries)
+                }
+                Err(_) => {
+                    // a panic in the closure changes nothing: this call wrote nothing
+                    if names(|n| n.last_write.get(&w).is_some()) {
+                        violation(format!("panic-consistency: rcu on c{} by t{} wrote although its closure panicked", c, w));
+                    }
+                    let _ = before;
+                    format!("rcu-panicked tries={}", tries)
+                }
+            }
+        }
         Op::NullH { h } => {
             if !h_free!(*h) {
                 return "skip".into();
@@ -962,8 +1008,12 @@ where
                                     .cloned()
                                     .or_else(|| p.downcast_ref::<&str>().map(|s| s.to_string()))
                                     .unwrap_or_default();
-                                violation(format!("panic: t{} in `{}`: {}", w, op.text(), msg));
-                                emit("end panic".to_string());
+                                if msg.starts_with("injected") {
+                                    emit("end panic-injected".to_string());
+                                } else {
+                                    violation(format!("panic: t{} in `{}`: {}", w, op.text(), msg));
+                                    emit("end panic".to_string());
+                                }
                             }
                         }
                         lock(&apis).insert(w, String::new());
